@@ -1,25 +1,35 @@
 (* C08 - Table lookups are provable exactly for pairs contained in the table.
    Kernel theorems on Model/Lookup.v (lookup_constraints is tied to the implementation's
-   check_lookup_constraints by the `lkc` correspondence of checks/c08.py):
+   check_lookup_constraints by the `lkc` correspondence, compute_lookup_polys by `clp`, checks/c08.py):
      - transition algebra of the partial Sum / LDC (SLDC) polynomials;
      - telescoping over the rows of a table: end value - start value = Sum - LDC, from vanishing
-       transition constraints alone (soundness direction);
+       transition constraints alone;
      - the counting identity of the logarithmic-derivative argument (multiplicities = hit counts);
      - the RE recurrence ends at get_lut_poly's value when the table rows hold the declared table,
        and conversely pins the rows for all but fewer than #slots values of delta (root bound);
-     - completeness of compute_lookup_polys for a circuit with one table: every lookup constraint
-       of every row of H is zero and the running sum ends at zero.
-   REFUTED on the faithful model (and on the implementation, see checks/c08.py c08replay): soundness
-   of the running sum. The initial constraint `InitSre * z_x_lookup_sldcs[0]` pins the FIRST partial
-   polynomial on the row after the table, but the transition of the first table row starts from the
-   LAST partial polynomial of that row (`z_gx_lookup_sldcs[num_sldc_polys - 1]`). With more than one
-   partial polynomial the start value of the sum is free, so any imbalance (a looked pair outside the
-   table, a wrong multiplicity) can be absorbed: C08_lookup_sound_refuted exhibits an assignment with
-   the looking pair (2, 999) against the table {(1,10),(2,20)} for which every lookup constraint of
-   every row vanishes.
-   NOT proved: lookup_sound (false as the code stands, see above); that the builder's add_all_lookups produces the
-   layout assumed by C08_lookup_complete and that set_lookup_wires / the generators produce the assumed wires
-   (exercised by the C08 corpus on the implementation). *)
+     - completeness of compute_lookup_polys for any number of tables (C08_lookup_complete);
+     - soundness direction (C08_lookup_sound_partial): if every lookup constraint vanishes on every row
+       of H, then for every table the start of the running sum is pinned to zero by InitSre, its end by
+       LastLdc, hence the balance equation sum_i m_i/(alpha - t_i) = sum_j 1/(alpha - f_j) holds at
+       the challenge alpha over the table's rows, and the RE recurrence over the table rows equals
+       get_lut_poly(delta) of the declared table;
+     - root-bound step (C08_balance_forces_membership, C08_lookup_sound_membership_partial): the balance
+       equation holding at #table slots + #looking slots distinct challenges alpha (not poles) forces
+       every looking combination to be the combination of a slot of the table rows, provided
+       1, 2, .., #lookups are non-zero in the field (characteristic larger than the number of lookups).
+   History: before repo commit bfbd0f1 the initial constraint was `InitSre * z_x_lookup_sldcs[0]`, i.e. it
+   pinned the FIRST partial polynomial on the row after the table although the first table row's
+   transition starts from the LAST one; with more than one partial polynomial the start value of the sum
+   was free and forged proofs verified (found by the C08/C02 harness strategy `sldc-shift`; this file then
+   contained C08_lookup_sound_refuted). The model mirrors the fixed code; the forged instance is kept below
+   as a regression Example (C08_forged_instance_now_rejected).
+   _partial / NOT proved: the step from "every looking combination (for one challenge a) is a table-row
+   combination, and the table rows' RE value matches the declared table" to "every looked (input, output) pair
+   is an entry of the declared table" needs the same root-bound argument over the challenges a, b, delta
+   (C08_combo_pair_unique and C08_re_forces_table are the algebraic pieces) and the protocol-level argument
+   that one committed wire assignment must work for random challenges (Fiat-Shamir / FRI), which is not
+   formalised; that add_all_lookups / set_lookup_wires / the generators produce the layout and wires assumed
+   by C08_lookup_complete is exercised by the C08 corpus on the implementation, not proved. *)
 From Coq Require Import List Arith ZArith Bool Lia.
 From Verif Require Import Base.Field Base.Poly Model.Fp Proofs.FpFieldPrime Model.Permutation Proofs.Permutation
                           Model.Lookup Proofs.Lookup.
@@ -125,6 +135,82 @@ Theorem C08_lookup_complete :
         all_zero cs.
 Proof. exact @lookup_complete_all. Qed.
 
+(* Soundness direction, deterministic part. RE r and S k r are arbitrary values (the openings of the RE polynomial and
+   of partial SLDC polynomial k on row r); zs_at npl RE S r = RE r :: [S 0 r; ..; S (npl-1) r]. If every constraint
+   returned by [lookup_constraints] vanishes on every row of H (next row cyclic), then for the i-th table (region g):
+   InitSre pins the start of the running sum, LastLdc its end, the balance equation of the logarithmic-derivative
+   argument holds at alpha over the slots of the table rows (value t, multiplicity m) and the looking slots (value f),
+   and the RE recurrence over the table rows equals the value demanded from the declared table.
+   _partial: this is the consequence at ONE challenge tuple; see the file header for what is missing. *)
+Theorem C08_lookup_sound_partial :
+  forall (F : Type) (H : FieldOps F) (FL : FieldLaws F) (num_routed qdf npl : nat) (tabs : list (list (F * F)))
+         (ch : challenges) (regions : list region) (gd : region) (W : nat -> list F) (RE : nat -> F) (S : nat -> nat -> F)
+         (n i : nat),
+    let g := nth i regions gd in
+    (1 <= npl)%nat -> (1 <= qdf)%nat -> (1 <= num_routed / 3)%nat ->
+    length tabs = length regions -> (forall t, In t tabs -> t <> []) -> (forall r, (num_routed <= length (W r))%nat) ->
+    (forall r, (r < n)%nat ->
+       exists cs, lookup_constraints num_routed qdf tabs ch (W r) (zs_at npl RE S r) (zs_at npl RE S ((r + 1) mod n))
+                                     (lookup_selectors_at regions r) = Some cs /\ all_zero cs) ->
+    (i < length regions)%nat -> (last_lu g < last_lut g)%nat /\ (last_lut g <= first_lut g)%nat -> (first_lut g + 1 < n)%nat ->
+    (num_routed / 3 <= npl * div_ceil (num_routed / 3) npl)%nat -> (num_routed / 2 <= npl * (qdf - 1))%nat ->
+    (forall r, In r (lut_rows g) -> lut_factors_ok num_routed ch W r) ->
+    (forall r, In r (lu_rows g) -> lu_factors_ok num_routed ch W r) ->
+    S (npl - 1)%nat (first_lut g + 1)%nat = 0 /\ S (npl - 1)%nat (last_lu g) = 0 /\
+    fsum (map (fun tm : F * F => snd tm * finv (ch_alpha ch - fst tm)) (looked_flat num_routed ch g W)) =
+    fsum (map (fun f => finv (ch_alpha ch - f)) (looking_flat num_routed ch g W)) /\
+    re_fold (ch_delta ch) 0 (flat_map (fun r => map (looked_combo (ch_b ch) (W r)) (seq 0 (num_routed / 3))) (rev (lut_rows g))) =
+    end_value num_routed (nth i tabs []) ch.
+Proof. exact @lookup_sound. Qed.
+
+(* distinct poles: sum_v c(v)/(X - v) vanishing at |poles| points that are not poles forces every c(v) = 0 *)
+Theorem C08_poles_vanish :
+  forall (F : Type) (H : FieldOps F) (FL : FieldLaws F) (c : F -> F) (vs alphas : list F),
+    NoDup vs -> NoDup alphas -> (length vs <= length alphas)%nat ->
+    (forall a, In a alphas -> (forall u, In u vs -> a <> u) /\ fsum (map (fun v => c v * finv (a - v)) vs) = 0) ->
+    forall v, In v vs -> c v = 0.
+Proof. exact @poles_vanish. Qed.
+
+(* root-bound step of the argument: table slots (value, multiplicity) tms, looking values fs; multiplicities are
+   arbitrary field elements. If the balance equation holds at |tms| + |fs| distinct non-pole alphas and 1..|fs| are
+   non-zero in the field, every looking value is the value of a table slot. *)
+Theorem C08_balance_forces_membership :
+  forall (F : Type) (H : FieldOps F) (FL : FieldLaws F) (tms : list (F * F)) (fs alphas : list F),
+    (forall k, (1 <= k <= length fs)%nat -> fofnat k <> 0) ->
+    NoDup alphas -> (length tms + length fs <= length alphas)%nat ->
+    (forall a, In a alphas ->
+       (forall tm, In tm tms -> a <> fst tm) /\ (forall f, In f fs -> a <> f) /\
+       fsum (map (fun tm => snd tm * finv (a - fst tm)) tms) = fsum (map (fun f => finv (a - f)) fs)) ->
+    forall f, In f fs -> exists m, In (f, m) tms.
+Proof. exact @balance_forces_membership. Qed.
+
+(* composition of the two: the wires W and the challenges a, b, delta fixed, alpha ranging over enough values for each of
+   which SOME openings RE, S make every lookup constraint of every row vanish: every looking combination of the i-th
+   table is the combination of a slot of its table rows.
+   _partial: combinations (for the one challenge a), not yet (input, output) pairs of the declared table. *)
+Theorem C08_lookup_sound_membership_partial :
+  forall (F : Type) (H : FieldOps F) (FL : FieldLaws F) (num_routed qdf npl : nat) (tabs : list (list (F * F))) (a b d : F)
+         (regions : list region) (gd : region) (W : nat -> list F) (n i : nat) (alphas : list F),
+    let g := nth i regions gd in
+    (1 <= npl)%nat -> (1 <= qdf)%nat -> (1 <= num_routed / 3)%nat ->
+    length tabs = length regions -> (forall t, In t tabs -> t <> []) -> (forall r, (num_routed <= length (W r))%nat) ->
+    (i < length regions)%nat -> (last_lu g < last_lut g)%nat /\ (last_lut g <= first_lut g)%nat -> (first_lut g + 1 < n)%nat ->
+    (num_routed / 3 <= npl * div_ceil (num_routed / 3) npl)%nat -> (num_routed / 2 <= npl * (qdf - 1))%nat ->
+    (forall k, (1 <= k <= length (looking_slots num_routed a b d regions gd W i))%nat -> fofnat k <> 0) ->
+    NoDup alphas ->
+    (length (table_slots num_routed a b d regions gd W i) + length (looking_slots num_routed a b d regions gd W i) <= length alphas)%nat ->
+    (forall alpha, In alpha alphas ->
+       (forall r, In r (lut_rows g) -> lut_factors_ok num_routed (ch_with a b d alpha) W r) /\
+       (forall r, In r (lu_rows g) -> lu_factors_ok num_routed (ch_with a b d alpha) W r) /\
+       exists (RE : nat -> F) (S : nat -> nat -> F),
+         forall r, (r < n)%nat ->
+           exists cs, lookup_constraints num_routed qdf tabs (ch_with a b d alpha) (W r) (zs_at npl RE S r)
+                                         (zs_at npl RE S ((r + 1) mod n)) (lookup_selectors_at regions r) = Some cs /\
+                      all_zero cs) ->
+    forall f, In f (looking_slots num_routed a b d regions gd W i) ->
+      exists m, In (f, m) (table_slots num_routed a b d regions gd W i).
+Proof. exact @sound_membership. Qed.
+
 (* ---------------------------------------------------------------- a concrete table: 12 routed wires (6 looking
    slots, 4 table slots per row), quotient degree factor 3 (3 partial SLDC polynomials), rows: 0 looking,
    1 table, 2 the zero row after the table, 3 unused *)
@@ -168,26 +254,28 @@ Definition ex_bad_polys : list (list Fp) :=
   | None => []
   end.
 
-(* REFUTATION of lookup soundness on the faithful model: the looking pair (2, 999) is not an entry of the table,
-   yet every lookup constraint of every row of H vanishes (the start value of the running sum on row 2,
-   partial polynomial 3, is non-zero and unconstrained). *)
-Theorem C08_lookup_sound_refuted :
-  exists (W : nat -> list Fp) (P : list (list Fp)),
-    (wire (W 0%nat) 0, wire (W 0%nat) 1) = (toFp 2, toFp 999) /\
-    ~ In (toFp 2, toFp 999) ex_tab /\
-    fval (getv P 3 2) <> 0%Z /\
-    forall r, (r < 4)%nat ->
-      exists cs, lookup_constraints 12 3 [ex_tab] ex_ch (W r) (zs_of 12 3 P r) (zs_of 12 3 P ((r + 1) mod 4))
-                                    (lookup_selectors_at [ex_g] r) = Some cs /\ all_zero cs.
+(* Regression for the defect fixed in repo commit bfbd0f1: the forged assignment (looking pair (2, 999) against the
+   table {(1,10),(2,20)}, running sums shifted so that they end at zero, hence a non-zero start value of partial
+   polynomial 3 on row 2) no longer satisfies the lookup constraints: the InitSre constraint of row 2 (second entry of
+   the constraint list) is non-zero. Under the old constraint `InitSre * z_x_lookup_sldcs[0]` every row vanished. *)
+Example C08_forged_instance_now_rejected :
+  (wire (ex_W 999 0%nat) 0, wire (ex_W 999 0%nat) 1) = (toFp 2, toFp 999) /\
+  ~ In (toFp 2, toFp 999) ex_tab /\
+  fval (getv ex_bad_polys 3 2) <> 0%Z /\
+  ex_rows_zero (ex_W 999) ex_bad_polys = false /\
+  option_map (fun cs : list Fp => negb (fval (nth 1 cs (toFp 0)) =? 0)%Z)
+             (lookup_constraints 12 3 [ex_tab] ex_ch (ex_W 999 2%nat) (zs_of 12 3 ex_bad_polys 2) (zs_of 12 3 ex_bad_polys 3)
+                                 (lookup_selectors_at [ex_g] 2)) = Some true.
 Proof.
-  exists (ex_W 999), ex_bad_polys. split; [reflexivity|]. split; [|split].
+  split; [reflexivity|]. split; [|split; [|split]].
   - cbn. intros [E|[E|[]]]; apply (f_equal (fun p => fval (snd p))) in E; vm_compute in E; discriminate.
   - vm_compute. discriminate.
-  - apply ex_rows_zero_spec. vm_compute. reflexivity.
+  - vm_compute. reflexivity.
+  - vm_compute. reflexivity.
 Qed.
 
-(* the same adversarial shift is harmless on the honest assignment (pair (2, 20)): hypotheses of
-   C08_lookup_complete are satisfiable, and the honest polynomials satisfy all rows *)
+(* the honest assignment (pair (2, 20)): hypotheses of C08_lookup_complete are satisfiable, and the honest polynomials
+   satisfy all rows *)
 Local Lemma map_fval_inj (l l' : list Fp) : map fval l = map fval l' -> l = l'.
 Proof.
   revert l'. induction l as [|a l IH]; intros [|b l'] E; try discriminate; [reflexivity|].
